@@ -33,7 +33,7 @@ type c13Scenario struct {
 }
 
 var c13Flavours = []string{
-	"paths", "alias", "unmatched-role", "override-inbound", "explicit", "alias-conflict", "parent-expr", "case-collision",
+	"override-inbound-fields", "alias", "unmatched-role", "override-inbound", "explicit", "alias-conflict", "parent-expr", "case-collision",
 	"unmatched-channel", "override-outbound", "aggregator-level", "case-wrong-target", "unmatched-alias", "connect-redeclared",
 	"alias-same-task", "template-connect-without-target", "inbound-explicit", "alias-conflict-twin-ports", "override-inbound", "unmatched-role",
 }
@@ -203,6 +203,32 @@ func c13Gen(c *vlib.Ctx, idx int) c13Scenario {
 		}
 		sc.Notes = append(sc.Notes, "inbound 'ovr' of "+tr.path+" is declared at template and role level")
 	}
+	var ovfTask *roleSpec
+	if fl == "override-inbound-fields" {
+		// The farther declaration of an inbound channel (template, or an aggregator) carries a static bind
+		// address or a global alias; the nearer one (the task role) declares the same NAME again and leaves
+		// that field empty. The nearer declaration is the effective one: the channel binds the endpoint
+		// allocated at launch and carries no alias.
+		tr := tasks[r.Intn(len(tasks))]
+		ovfTask = tr
+		low := chanSpec{Name: "ovf", Type: "pull", Transport: "zeromq", Addressing: "tcp"}
+		if (idx/len(c13Flavours))%2 == 0 {
+			low.Target = pick(r, "tcp://*:47100", "tcp://*:9777", "ipc://@c13-static")
+		} else {
+			low.Global = "ghost"
+		}
+		high := chanSpec{Name: "ovf", Type: "push", Transport: "shmem", Addressing: pick(r, "tcp", "")}
+		where := "its template"
+		if tr.parent != root && len(tr.parent.taskRoles()) == 1 && r.Intn(3) != 0 {
+			// (only an aggregator with no other task below it: a sibling would inherit the declaration as its own)
+			tr.parent.Bind = append(tr.parent.Bind, low)
+			where = "aggregator " + tr.parent.Name
+		} else {
+			tr.Task.Bind = append(tr.Task.Bind, low)
+		}
+		tr.Bind = append(tr.Bind, high)
+		sc.Notes = append(sc.Notes, fmt.Sprintf("inbound 'ovf' of %s: %s declares it with target=%q global=%q, the task role declares it again without either", tr.path, where, low.Target, low.Global))
+	}
 	if fl == "inbound-explicit" {
 		tr := tasks[r.Intn(len(tasks))]
 		addr := pick(r, "tcp://*:47000", "ipc://@c13-explicit", "tcp://*:9555")
@@ -237,7 +263,7 @@ func c13Gen(c *vlib.Ctx, idx int) c13Scenario {
 	ins := allIn()
 	aliasN := 0
 	for _, in := range ins {
-		if in.ch.Name == "gin" || in.ch.Name == "ovr" {
+		if in.ch.Name == "gin" || in.ch.Name == "ovr" || in.ch.Name == "ovf" {
 			continue // an alias on a channel bound by several tasks would be a conflict by construction
 		}
 		if r.Intn(3) == 0 || ((fl == "alias" || fl == "alias-conflict" || fl == "unmatched-alias") && aliasN < 2) {
@@ -310,6 +336,16 @@ func c13Gen(c *vlib.Ctx, idx int) c13Scenario {
 	case "unmatched-role", "unmatched-channel", "unmatched-alias", "template-connect-without-target":
 		kind := map[string]string{"unmatched-role": "role", "unmatched-channel": "channel", "unmatched-alias": "alias", "template-connect-without-target": "empty-target"}[fl]
 		placeDangling(&sc, r, last, ins, kind)
+	case "override-inbound-fields":
+		if (idx/len(c13Flavours))%2 == 0 {
+			// somebody connects to the channel by its role path: it must be sent to the allocated endpoint
+			last.Connect = append(last.Connect, chanSpec{Name: "toovf", Type: "pull", Target: ovfTask.path + ":ovf"})
+		} else {
+			// the alias only exists on the overridden declaration: nothing carries it, the target dangles
+			last.Connect = append(last.Connect, chanSpec{Name: "lost", Type: "pull", Target: "::ghost"})
+			sc.Fault = "unmatched-overridden-alias"
+			sc.DanglingPos, sc.DanglingDecl, sc.DanglingTask = "last", "role", last.path
+		}
 	case "case-wrong-target":
 		// an existing role / channel / alias, spelled with the wrong case: matches nothing
 		placeDangling(&sc, r, last, ins, []string{"case-channel", "case-role", "case-alias"}[(idx/len(c13Flavours))%3])
@@ -561,6 +597,14 @@ func c13Run(c *vlib.Ctx, idx int) {
 			}
 			if got := get(args, ch.Name, "transport"); got != transportOr(ch.Transport) {
 				viol("INBOUND", "declaration-not-honoured/transport", fmt.Sprintf("task %s: inbound channel %s has transport %q, the nearest declaration says %q", tr.path, ch.Name, got, transportOr(ch.Transport)))
+			}
+			if far := fartherStaticAddress(tr, ch.Name); ch.Target == "" && far != "" {
+				c.Count("inbound_overriding_a_static_address", 1)
+				if addr == far {
+					viol("INBOUND", "overridden-static-address-inherited", fmt.Sprintf("task %s: inbound channel %s is told to bind %q, the static address of a farther declaration that the nearest declaration (which has none) overrides; its ACCEPT reserved ports %v", tr.path, ch.Name, addr, mt.Ports))
+					boundBy[key] = bound{addr, get(args, ch.Name, "transport"), mt, ch}
+					continue
+				}
 			}
 			switch {
 			case ch.Target != "":
@@ -1010,4 +1054,22 @@ func c13GenCaseCollision(sc c13Scenario, r *rand.Rand) c13Scenario {
 	sc.Notes = append(sc.Notes, "roles proc/Proc, channels out/OUT, aliases ::readout/::Readout; cons targets each of the six exactly")
 	root.link(nil)
 	return sc
+}
+
+// fartherStaticAddress: a declaration of the inbound channel farther than the nearest one (an ancestor
+// role or the template) carries an explicit bind address.
+func fartherStaticAddress(tr *roleSpec, name string) string {
+	seen := false
+	for _, p := range tr.chain() {
+		if ch, ok := kvGetChan(p.Bind, name); ok {
+			if seen && ch.Target != "" {
+				return ch.Target
+			}
+			seen = true
+		}
+	}
+	if ch, ok := kvGetChan(tr.Task.Bind, name); ok && seen && ch.Target != "" {
+		return ch.Target
+	}
+	return ""
 }
